@@ -869,6 +869,77 @@ func ruleR30(c *Ctx) {
 			})
 		}
 	}
+	// (d) the kind VALUE written for each expression type is classified the same way by the reader
+	var eqConsts, suffixConsts []string
+	written := map[string]string{} // case type -> attribute value
+	for _, f := range p.Funcs {
+		if f.Pkg != pk || f.Obj == nil || recvNamed(f.Obj) == nil || recvNamed(f.Obj).Obj().Name() != "AnExpression" {
+			continue
+		}
+		fin := info(f)
+		if f.Obj.Name() == "UnmarshalXML" {
+			inspectNoLit(f.Body, func(m ast.Node) bool {
+				switch x := m.(type) {
+				case *ast.BinaryExpr:
+					if x.Op == token.EQL {
+						if sel, ok := unparen(x.X).(*ast.SelectorExpr); ok && sel.Sel.Name == "Value" {
+							if sv, ok := constString(fin, x.Y); ok {
+								eqConsts = append(eqConsts, sv)
+							}
+						}
+					}
+				case *ast.CallExpr:
+					if fn := callee(fin, x); fn != nil && fn.Pkg() != nil && fn.Pkg().Path() == "strings" && fn.Name() == "HasSuffix" && len(x.Args) == 2 {
+						if sv, ok := constString(fin, x.Args[1]); ok {
+							suffixConsts = append(suffixConsts, sv)
+						}
+					}
+				}
+				return true
+			})
+		}
+		if f.Obj.Name() == "MarshalXML" {
+			inspectNoLit(f.Body, func(m ast.Node) bool {
+				cc, ok := m.(*ast.CaseClause)
+				if !ok || len(cc.List) != 1 {
+					return true
+				}
+				tn := typeString(fin.TypeOf(cc.List[0]))
+				ast.Inspect(cc, func(z ast.Node) bool {
+					if kv, ok := z.(*ast.KeyValueExpr); ok {
+						if id, ok := kv.Key.(*ast.Ident); ok && id.Name == "Value" {
+							if sv, ok := constString(fin, kv.Value); ok {
+								written[tn] = sv
+							}
+						}
+					}
+					return true
+				})
+				return true
+			})
+		}
+	}
+	readsFormal := func(v string) bool {
+		for _, e := range eqConsts {
+			if v == e {
+				return true
+			}
+		}
+		for _, sfx := range suffixConsts {
+			if strings.HasSuffix(v, sfx) {
+				return true
+			}
+		}
+		return false
+	}
+	for tn, v := range written {
+		wantFormal := strings.Contains(tn, "FormalExpression")
+		got := readsFormal(v)
+		c.Check(got == wantFormal, nil, mappingNode, "kind value written for "+tn+" is read back as the same kind", "the xsi:type value the writer emits for "+tn+" ("+v+") is classified by the reader's test as formal="+fmt.Sprint(wantFormal)+" (otherwise an expression changes kind in a round trip)", fmt.Sprintf("reader accepts as formal: ==%v or suffix %v; verdict for %q: %v", eqConsts, suffixConsts, v, got))
+	}
+	if len(written) < 2 {
+		c.Missing("expression kind values", "AnExpression.MarshalXML no longer writes a kind value per expression type")
+	}
 	if testedLocal == "" || len(writtenAttr) == 0 {
 		c.Missing("expression kind attribute", "AnExpression.MarshalXML / UnmarshalXML attribute handling not found")
 	} else {
@@ -1200,6 +1271,60 @@ func ruleR33(c *Ctx) {
 					c.Check(ok, f, x, "assignment to "+fieldName(in, l), "an id stored into a flow/instance originates from IGenerator.New() (a copied or reused id makes two flows indistinguishable)", why)
 				}
 			}
+			return true
+		})
+	}
+	// a fresh generator gets a fresh partition: the snapshot handed to sno.NewGenerator is non-nil only
+	// when snapshot bytes were supplied
+	for _, f := range p.Funcs {
+		if shortPkg(f.Pkg.PkgPath) != "pkg/id" {
+			continue
+		}
+		in := info(f)
+		inspectNoLit(f.Body, func(m ast.Node) bool {
+			call, ok := m.(*ast.CallExpr)
+			if !ok || len(call.Args) < 1 {
+				return true
+			}
+			fn := callee(in, call)
+			if fn == nil || fn.Name() != "NewGenerator" || fn.Pkg() == nil || !strings.Contains(fn.Pkg().Path(), "sno") {
+				return true
+			}
+			sv, _ := objOf(in, call.Args[0]).(*types.Var)
+			if sv == nil {
+				c.Check(isNilIdent(call.Args[0]), f, call, "snapshot passed to sno.NewGenerator", "a fresh generator is created from a nil snapshot", exprStringShort(call.Args[0]))
+				return true
+			}
+			okAll, n := true, 0
+			inspectNoLit(f.Body, func(z ast.Node) bool {
+				switch x := z.(type) {
+				case *ast.AssignStmt:
+					for i, l := range x.Lhs {
+						if id, ok := unparen(l).(*ast.Ident); ok && objOf(in, id) == types.Object(sv) && i < len(x.Rhs) && !isNilIdent(x.Rhs[i]) {
+							n++
+							guard := enclosingIfWhere(p, x, f.Body, func(cond ast.Expr, inThen bool) bool {
+								be, ok := unparen(cond).(*ast.BinaryExpr)
+								if !ok || !inThen {
+									return false
+								}
+								return (be.Op == token.GTR || be.Op == token.NEQ) && isLenCall(in, be.X)
+							})
+							if guard == nil {
+								okAll = false
+							}
+						}
+					}
+				case *ast.ValueSpec:
+					for i, nm := range x.Names {
+						if in.Defs[nm] == types.Object(sv) && i < len(x.Values) && !isNilIdent(x.Values[i]) {
+							n++
+							okAll = false
+						}
+					}
+				}
+				return true
+			})
+			c.Check(okAll, f, call, "snapshot passed to sno.NewGenerator", "the snapshot handed to sno.NewGenerator is nil unless snapshot bytes were supplied (every non-nil assignment sits under `if len(bytes) > 0`): a fresh generator must draw a fresh partition, otherwise all generators of a program issue the same ids", fmt.Sprintf("%d non-nil assignments, all under a length test: %v", n, okAll))
 			return true
 		})
 	}
